@@ -249,6 +249,31 @@ def run(tier: str, seed: int) -> int:
     tag_behaviour(res, order, dict(reg["tags"]))
     unregistered_codes(res, order, spaces)
     res.notes["not_in_registry"] = sorted(set(not_in_registry))
+    # a vocabulary-bearing class the registry does not know, all of whose members are members of ONE registered key space with the registered
+    # codes: that key space applies there, so every name of it must be accepted there (a key space split for one context, C08-o)
+    for sp, entry in spaces.items():
+        if sp in registry or entry[1] == "enum":
+            continue
+        ci, kind, names = entry[0], entry[1], entry[2]
+        homes = [r for r, rn in registry.items() if names and all(rn.get(n) == c for n, c in names.items())]
+        if len(homes) != 1:
+            continue
+        home = homes[0]
+        hci, _, _, hchild = spaces[home] if home in spaces and len(spaces[home]) == 4 else (None, None, None, {})
+        for n, code in registry[home].items():
+            if n in names:
+                continue
+            child = hchild.get(n)
+            obj = {n: sample_for(descs, order, child) if child is not None else 0}
+            try:
+                order[ci].from_obj(__import__("copy").deepcopy(obj)).to_cbor()
+                continue
+            except BaseException as e:  # noqa
+                err = suitio.err_class(e)
+            res.case([sp, n, "split-space"])
+            res.spec_failures.append({"space": home, "class": sp, "name": n, "code": code, "description": str(obj)[:200], "impl": err,
+                                      "what": f"class {sp} carries the key space {home} (all its members are that space's, with the registered codes) "
+                                              f"but rejects the registered name {n}"})
     res.notes["key_spaces"] = {k: len(v[2]) for k, v in spaces.items()}
     res.sample({"space": "SuitDirective", "name": "suit-directive-fetch", "desc": {"suit-directive-fetch": []}, "wire": "8215" "00"})
     res.exhaustive = True
